@@ -246,12 +246,13 @@ macro_rules! array_contract_checks {
                 let big = huge || r.chance(1, 8);
                 // and one case in 300 uses arrays of several hundred elements (block-wise implementations)
                 let large = r.chance(1, 300) && !cfg!(miri);
-                let maxlen = if large { 700 } else if huge { 200 } else if big { 40 } else { 6 };
+                let maxlen = if large { 1400 } else if huge { 200 } else if big { 40 } else { 6 };
                 if large {
                     ctx.class("arrays_of_several_hundred_elements");
                 }
                 let n = if large { r.range(256, maxlen) } else { r.small(maxlen) };
-                let bound = if big { r.range(1, 40) } else { r.range(1, 5) };
+                // values: small, up to 40, and for the large arrays sometimes up to 700 (runs / segments longer than 256)
+                let bound = if large && r.chance(1, 2) { r.range(200, 700) } else if big { r.range(1, 40) } else { r.range(1, 5) };
                 if big {
                     ctx.class("arrays_up_to_40");
                 }
